@@ -140,7 +140,9 @@ func (g *hdGen) join(c, b int, authed bool) hdOp {
 	}
 	o := hdOp{K: "join", C: c, R: room}
 	if room != 0 {
-		if r.chance(80) {
+		// internal clients join without a Nextcloud session id (their virtual sessions are closed by a
+		// goroutine of their own when they get kicked, which races with the kicker's join)
+		if r.chance(80) && !g.intern[c] {
 			o.RS = g.freshRS(c, b)
 			if o.RS != 0 && authed {
 				g.rsOf[c] = o.RS
@@ -178,8 +180,14 @@ func (g *hdGen) apiOp(bk int) hdOp {
 	users := func() []hdApiUser {
 		var l []hdApiUser
 		n := 1 + r.intn(3)
+		used := map[int]bool{}
 		for i := 0; i < n; i++ {
 			u := hdApiUser{RS: 1 + r.intn(8), InCall: pick(r, []int{0, 1, 3, 7})}
+			if used[u.RS] {
+				// the server handles the entries of one request concurrently: two entries for one session race
+				continue
+			}
+			used[u.RS] = true
 			if !g.opts.multiBackendRS {
 				if ob, used := g.rsBackend[u.RS]; used && ob != bk {
 					continue
@@ -472,6 +480,37 @@ func hdGenCase(r *vrng, id int, opts hdGenOpts, n int) *hdCase {
 	}
 	if r.chance(25) || opts.limits {
 		c.Backends[0].Limit = 1 + r.intn(3)
+	}
+	if opts.messages || opts.twoTenants || opts.virtual || opts.perms {
+		// a populated system first: several sessions of both backends in a few rooms, some in the call
+		k := 3 + r.intn(3)
+		for i := 1; i <= k; i++ {
+			g.next = i
+			g.conns = append(g.conns, i)
+			bk := r.intn(2)
+			c.Ops = append(c.Ops, hdOp{K: "connect", C: i, Addr: 1 + r.intn(3)})
+			if opts.virtual && i == 1 {
+				c.Ops = append(c.Ops, hdOp{K: "hello", C: i, Ht: "internal", B: bk})
+				g.intern[i] = true
+			} else {
+				c.Ops = append(c.Ops, hdOp{K: "hello", C: i, B: bk, U: r.intn(4)})
+			}
+			g.auth[i] = bk
+			rs := 1 + r.intn(8)
+			if g.intern[i] {
+				rs = 0
+			}
+			c.Ops = append(c.Ops, hdOp{K: "join", C: i, R: 1 + r.intn(2), RS: rs})
+			if rs != 0 {
+				g.rsOf[i] = rs
+				g.rsBackend[rs] = bk
+			}
+		}
+		for b := 0; b < 2; b++ {
+			if r.chance(70) {
+				c.Ops = append(c.Ops, hdOp{K: "api", B: b, SignAs: b, R: 1 + r.intn(2), Api: "incallall", InCall: 1})
+			}
+		}
 	}
 	for i := 0; i < n; i++ {
 		c.Ops = append(c.Ops, g.op())
